@@ -105,3 +105,17 @@ class legacy_encode:
     result = T.ListT(T.Int)
     options = dict(no_concrete=True)
     props = ["C14"]
+
+
+@contract(MT, "MazeTokenizer._tokenizer_map")
+class legacy_tokenizer_map:
+    """C14: `the token-to-id map is the inverse of the token list` - from the real dict comprehension, for any duplicate-free token list
+    (that the three legacy vocabularies are duplicate-free for every max_grid_size is decided completely by the bounded stand-in)"""
+    params = dict(self=T.RecT("MazeTokenizer", _token_arr=T.ListT(T.Str)))
+    requires = ["forall(lambda a, b: implies(a != b, self._token_arr[a] != self._token_arr[b]), (0, len(self._token_arr)), (0, len(self._token_arr)))"]
+    ensures = {
+        "C14.legacy-map.inverse": "forall(lambda i: self._token_arr[i] in result and result[self._token_arr[i]] == i, (0, len(self._token_arr)))",
+        "C14.legacy-map.only-tokens": "forall_str(lambda t: implies(t in result, 0 <= result[t] and result[t] < len(self._token_arr) and self._token_arr[result[t]] == t))",
+    }
+    options = dict(no_concrete=True)
+    props = ["C14"]
